@@ -23,7 +23,7 @@ LEVEL = "model_checking"
 MIN_OUTCOMES = 3
 MANIFEST = {
     "text": "Round trip render -> recognise -> render on the real library entry points for EVERY calendar date of the stated "
-    "range x every calendar block (quick 2001-2030+2097-2099; thorough 1000-01-01..9999-12-31 for four-digit years, 2001-2099 for two-digit years), "
+    "range x every calendar block (quick 2001-2030+2097-2099 plus, for four-digit years, 1000-1001, 1899-1901, 1999-2000, 2399-2401, 9998-9999; thorough 1000-01-01..9999-12-31 for four-digit years, 2001-2099 for two-digit years), "
     "for grammar patterns x covering value states, and along chains of real `test` bumps whose every output is fed back as input and "
     "through the config loader/`show`.",
     "note": "values outside the alphabets, inherently ambiguous glued patterns and year-less calendar patterns are outside G",
@@ -138,7 +138,12 @@ def _first_part_diff(pat, a, b):
 
 def date_spans(tier, four_digit):
     if tier == "quick":
-        return [(dt.date(2001, 1, 1), dt.date(2030, 12, 31)), (dt.date(2097, 1, 1), dt.date(2099, 12, 31))]
+        spans = [(dt.date(2001, 1, 1), dt.date(2030, 12, 31)), (dt.date(2097, 1, 1), dt.date(2099, 12, 31))]
+        if four_digit:
+            # both ends of the four-digit range and the century years (1900 no leap year, 2000 and 2400 leap years)
+            spans += [(dt.date(1000, 1, 1), dt.date(1001, 12, 31)), (dt.date(1899, 1, 1), dt.date(1901, 12, 31)), (dt.date(1999, 1, 1), dt.date(2000, 12, 31)),
+                      (dt.date(2399, 1, 1), dt.date(2401, 12, 31)), (dt.date(9998, 1, 1), dt.date(9999, 12, 31))]
+        return spans
     if four_digit:
         return [(dt.date(1000, 1, 1), dt.date(9999, 12, 31))]
     return [(dt.date(2001, 1, 1), dt.date(2099, 12, 31))]
